@@ -135,7 +135,7 @@ func (a *aead) decrypt(header recordlayer.Header, in []byte) ([]byte, error) {
 	// Return nonce buffer to pool
 	a.nonceBufferPool.Put(noncePtr)
 
-	return append(in[:header.Size()], out...), nil
+	return plaintextRecord(in, header.Size(), out), nil
 }
 
 func generateAEADAdditionalData(h *recordlayer.Header, payloadLen int) []byte {
@@ -211,4 +211,14 @@ func examinePadding(payload []byte) (toRemove int, good byte) {
 	toRemove = int(paddingLen) + 1
 
 	return toRemove, good
+}
+
+// plaintextRecord puts the decrypted fragment behind the header of the record
+// it came in and makes that header describe the fragment it now precedes
+// (DTLSPlaintext.length instead of DTLSCiphertext.length).
+func plaintextRecord(in []byte, headerSize int, fragment []byte) []byte {
+	out := append(in[:headerSize], fragment...)
+	binary.BigEndian.PutUint16(out[headerSize-2:], uint16(len(fragment))) //nolint:gosec // G115
+
+	return out
 }
